@@ -334,7 +334,7 @@ fn can_bind_left(expr: &pr::ExprKind) -> bool {
 impl WriteSource for pr::Ident {
     fn write(&self, mut opt: WriteOpt) -> Option<String> {
         let width = self.path.iter().map(|p| p.len() + 1).sum::<usize>() + self.name.len();
-        opt.consume_width(width as u16)?;
+        opt.consume_width(width)?;
 
         let mut r = String::new();
         for part in &self.path {
